@@ -156,6 +156,24 @@ def generate(tier, rng):
         for rep in (["a0", "a0", "a2"], ["a1", "a3", "a3"], ["a0", "a2", "a2"], ["a4", "a2", "a2", "a3"]):
             keyl = dict(form="dict", entries=[["L", "a", ["list", rep]]])
             cases.append(dict(stream="subset-orders", uni=u5, arr=arr, steps=[dict(op="set", key=keyl, rhs=dict(kind="num", c=55)), dict(op="get", key=dict(form="ellipsis"))]))
+    # rank 5: one subset Dimension (items reversed) and two single items, the array stored in EVERY order of its five dimensions
+    u5d = mk_universe((2, 2, 2, 2, 2), "abcde")
+    import itertools as _it2
+    for pi, perm in enumerate(_it2.permutations("abcde")):
+        if tier == "quick" and pi % 2:
+            continue
+        dims = list(perm)
+        arr = dict(dims=dims, values=[(i * 7) % 31 + 1 for i in range(32)], layout="C")
+        key = dict(form="dict", entries=[["L", "c", ["single", u5d["c"]["items"][1]]],
+                                         ["L", "b", ["dim", subdim(u5d, "b", list(reversed(u5d["b"]["items"])))]],
+                                         ["L", "e", ["single", u5d["e"]["items"][0]]]])
+        u2 = _with_sub(u5d, key)
+        if pi % 4 < 2:
+            cases.append(dict(stream="rank5", uni=u2, arr=arr, steps=[dict(op="get", key=key)]))
+        else:
+            rd = [("B" if l == "b" else l) for l in dims if l not in ("c", "e")]
+            cases.append(dict(stream="rank5", uni=u2, arr=arr, steps=[dict(op="set", key=key, rhs=dict(kind="arr", arr=dict(dims=rd, values=[1000 + j for j in range(8)]))),
+                                                                       dict(op="get", key=dict(form="ellipsis"))]))
     # ambiguous items: two dimensions sharing an item
     amb = mk_universe((2, 2), "ab")
     amb["b"]["items"] = ["a0", "b1"]
